@@ -128,6 +128,10 @@ func openConn(port int, useTLS bool, carrier int, tm time.Duration) (*sconn, err
 			c.close()
 			return nil, err
 		}
+		if postRefused(pc) {
+			c.close()
+			return nil, errTunnelRace
+		}
 		pc.SetDeadline(time.Time{})
 		c.wr = pc
 		c.encode = func(b []byte) []byte {
@@ -195,8 +199,12 @@ func runScenario(port int, cfg childCfg, sc *scenario, tm time.Duration, snapsho
 	conns := make([]*sconn, len(sc.carriers))
 	for i, car := range sc.carriers {
 		c, err := openConn(port, cfg.TLS, car, tm)
-		if err != nil {
+		if err == errTunnelRace {
+			res.err = err
+		} else if err != nil {
 			res.err = fmt.Errorf("connection %d (carrier %d): %w", i, car, err)
+		}
+		if err != nil {
 			for _, x := range conns {
 				if x != nil {
 					x.close()
